@@ -1,7 +1,7 @@
 (* C15: jitdiff.  No sortedness is needed: 0 <= ct <= i + j holds at every point (each ct += 1 is
    paired with an i += 1 or a j += 1 that is not undone by the later j -= 1), writes happen with
    i < m and j <= n, and end2[j - 1] is only read after a j += 1 of the same outer iteration. *)
-From Coq Require Import ZArith QArith String List Bool Lia ZifyBool.
+From Coq Require Import ZArith QArith String List Bool Lia.
 From Verif Require Import Jit.Lang Jit.Interp Jit.Safety Jit.Tactics Gen.Kernels.
 Import ListNotations.
 Open Scope Z_scope.
